@@ -27,6 +27,11 @@ Sub-checks
                 to(Quantity(1, v))
   <sub>-attr    the same cases with the source built the documented way, x * Unit().<u>, on a Unit() object whose bare
                 attribute <u> has first been converted in place to the target (spellings that are identifiers)
+  log-frac2(-rt)  documented fraction pairs with linear spellings whose parts carry factors (W/cm2, mW/cm2, kW/km2 <-> dBSIL;
+                W/kHz, mW/MHz, kW/Hz <-> dBm/Hz, dBmW/Hz, dBW/Hz), both directions and there-and-back
+  log-refused   every ordered pair of level spellings the documentation does not list (dBm -> dBSWL, dBA -> dBuA ...): it is
+                not demanded that the library refuses or accepts them, but when value(v)/to(v) raises, the quantity must
+                report the same value and units afterwards and its documented conversion must still follow the formula
   level-aug     a += b and a -= b for every level unit (scalars over all value pairs, arrays as ndarray and list)
   temp-array / log-lin-array   the same conversions element-wise on an array, asked twice
 
@@ -91,6 +96,14 @@ LIN_MORE = [1e-6, 7.3, 1e6]
 SUM_MORE = [10, 30]
 UNC_SUBS = ('temp', 'log-lin', 'log-frac', 'log-log', 'log-direct')
 UNC_KINDS = ('abse', 'rele')
+# linear fraction spellings whose non-leading / leading units carry a factor: spelling -> (base linear unit, SI factor)
+FRAC2 = {
+    'BSIL': [('W/cm2', 'W/m2', 1e4), ('mW/cm2', 'W/m2', 10.0), ('kW/km2', 'W/m2', 1e-3)],
+    'Bm/Hz': [('W/kHz', 'W', 1e-3), ('mW/MHz', 'W', 1e-9), ('kW/Hz', 'W', 1e3)],
+    'BmW/Hz': [('W/kHz', 'W', 1e-3), ('mW/MHz', 'W', 1e-9)],
+    'BW/Hz': [('W/kHz', 'W', 1e-3), ('mW/MHz', 'W', 1e-9)],
+}
+REFUSED_VALUE = 3
 TGT_KINDS = ('value-baseunits', 'to-baseunits', 'to-quantity')   # target unit handed over as an object
 VARIANTS = {'-unc': UNC_KINDS, '-tgt': TGT_KINDS, '-attr': ('unit-attr',)}
 UNC_ABSE = 0.25          # absolute uncertainty attached in the *-unc cases
@@ -325,6 +338,26 @@ def cases(tier, seed):
                 add('log-frac', lu + '/Hz', 'W/Hz', x)
             for x in LIN_VALUES_:
                 add('log-frac', 'W/Hz', lu + '/Hz', x)
+    # linear fraction forms with prefixed numerators / denominators (both directions, and there and back)
+    for lb, lins in FRAC2.items():
+        base = lb.split('/')[0]
+        for lu in [lb, 'd' + lb]:
+            for vu, _, _ in lins:
+                for x in LEVEL_VALUES_:
+                    add('log-frac2', lu, vu, x)
+                    add('log-frac2-rt', lu, vu, x)
+                for x in LIN_VALUES_:
+                    add('log-frac2', vu, lu, x)
+                    add('log-frac2-rt', vu, lu, x)
+    # pairs of level units the documentation does not list: whatever the library does with them, a refusal must leave
+    # the quantity as it was
+    allspell = [sp for b in ['B', 'Np'] + list(LEVELS) for sp in lspell(b)]
+    for u in allspell:
+        for v in allspell:
+            bu, bv = l_split(u)[1], l_split(v)[1]
+            if bu == bv or {bu, bv} == {'B', 'Np'} or (bu, bv) in LOGLOG or (bv, bu) in LOGLOG:
+                continue
+            add('log-refused', u, v, REFUSED_VALUE)
     # level <-> level
     for b in ['B', 'Np'] + list(LEVELS):
         for u in lspell(b):
@@ -458,6 +491,21 @@ def _via(x, u, mid, v, var=None):
     q.to(_target(mid, var))
     q.to(_target(v, var))
     return q.value()
+
+
+def _refused(x, u, v, lin):
+    """try value(v) and to(v) on one quantity; report what happened and what the quantity says afterwards"""
+    from scinumtools.units import Quantity
+    q = Quantity(x, u)
+    spelled = q.units()
+    raised = []
+    for how in ('value', 'to'):
+        try:
+            q.value(v) if how == 'value' else q.to(v)
+            raised.append(False)
+        except Exception:
+            raised.append(True)
+    return (raised, q.value(), q.units() == spelled, q.units(), q.value(lin))
 
 
 def _aug(op, u, xs, ys, du, kind):
@@ -638,6 +686,50 @@ def check_case(c, _unc=None):
         elif o[1][2] != u or not _close(o[1][1], exp, REL, 1e-9):
             rec = failure(sub, list(c), [exp, u], [o[1][1], o[1][2]], _tags(sub, u, v),
                           "round-trip-differs:rel~" + _relclass(o[1][1], exp))
+    elif sub in ('log-frac2', 'log-frac2-rt'):
+        _, u, v, x = c
+        table = {(lb if pref == '' else 'd' + lb, vu): (blin, f) for lb, lins in FRAC2.items() for vu, blin, f in lins
+                 for pref in ('', 'd')}
+        to_level = (v, u) in table
+        lu, vu = (v, u) if to_level else (u, v)
+        blin, f = table[(lu, vu)]
+        lu0 = lu.replace('/Hz', '')
+        tags = ["src=" + u, "dst=" + v, "fraction-with-factor"]
+        if sub == 'log-frac2-rt':
+            o = outcome(_there_and_back, x, u, v)
+            exp = float(x)
+            if o[0] == 'err':
+                rec = failure(sub, list(c), exp, list(o), tags, "raises:" + o[1] + ":" + _short(o[2]))
+            elif o[1][2] != u or not _close(o[1][1], exp, REL, 0.0 if to_level else 1e-9):
+                rec = failure(sub, list(c), [exp, u], [o[1][1], o[1][2]], tags,
+                              "round-trip-differs:rel~" + _relclass(o[1][1], exp))
+        else:
+            exp = linear_to_level(x * f, blin, lu0) if to_level else level_to_linear(x, lu0, blin) / f
+            o = outcome(_value, x, u, v)
+            absol = 1e-9 / 10.0 ** SI[l_split(lu0)[0]] if to_level else 0.0
+            if o[0] == 'err':
+                rec = failure(sub, list(c), exp, list(o), tags, "raises:" + o[1] + ":" + _short(o[2]))
+            elif not _close(o[1], exp, REL, absol):
+                rec = failure(sub, list(c), exp, o[1], tags, "wrong-value:rel~" + _relclass(o[1], exp))
+    elif sub == 'log-refused':
+        _, u, v, x = c
+        bu = l_split(u)[1]
+        lin = 'AR' if bu in ('B', 'Np') else LEVELS[bu][1]
+        exp = level_to_linear(x, u, lin)
+        o = outcome(_refused, x, u, v, lin)
+        tags = ["src=" + bu, "dst=" + l_split(v)[1], "undocumented-pair"]
+        if o[0] == 'err':
+            rec = failure(sub, list(c), exp, list(o), tags, "raises-afterwards:" + o[1])
+        else:
+            raised, val, same_units, units_now, linval = o[1]
+            if any(raised):
+                # not demanded: that the pair is refused (or accepted).  Demanded: a refusal leaves the quantity alone
+                if not same_units or not _close(val, float(x), REL_ID, 0.0):
+                    rec = failure(sub, list(c), [float(x), u], [val, units_now], tags + ["refused"],
+                                  "quantity-changed-by-refused-conversion")
+                elif not _close(linval, exp, REL, 0.0):
+                    rec = failure(sub, list(c), exp, linval, tags + ["refused"],
+                                  "later-conversion-wrong:rel~" + _relclass(linval, exp))
     elif sub == 'level-aug':
         _, u, op, kind, xs, ys = c
         xs, ys = [float(t) for t in xs], [float(t) for t in ys]
@@ -764,7 +856,7 @@ def replay(rec):
 def finish(total, tier, seed):
     h = total.hist
     subs = ['temp', 'temp-rt', 'log-lin', 'log-lin-rt', 'log-frac', 'log-log', 'log-direct', 'log-direct-rt',
-            'level-sum', 'level-diff', 'level-seq', 'level-array', 'level-aug', 'temp-array', 'log-lin-array'] + [x + suf for x in UNC_SUBS for suf in VARIANTS if not (x == 'log-frac' and suf == '-attr')]
+            'level-sum', 'level-diff', 'level-seq', 'level-array', 'level-aug', 'log-frac2', 'log-frac2-rt', 'log-refused', 'temp-array', 'log-lin-array'] + [x + suf for x in UNC_SUBS for suf in VARIANTS if not (x == 'log-frac' and suf == '-attr')]
     per = {s: h.get(s + ":ok", 0) + h.get(s + ":fail", 0) for s in subs}
     empty = [s for s, n in per.items() if n == 0]
     if empty:
